@@ -335,6 +335,29 @@ def gen_script(rng, kind):
         while g.delayed: g.release_delayed()
     return {"token0": token0, "mid0": mid0, "t0": t0, "events": g.events}
 
+def gen_hunt(rng):
+    """oracle-only 'collision hunt': one request stays outstanding (empty-ACKed, answered much later) while 255-300 (or ~520) further
+    requests to the same remote are issued and answered at once, so that the token counter passes 256 x (victim's counter) --
+    any rendering of the counter that is not injective (stripping zeros on the wrong side, truncation, a short modulus) makes a later
+    request reuse the victim's token while it is outstanding."""
+    token0, fillers, vc = rng.choice([(0, 0, 1), (0, 0, 1), (2 ** 64 - 1, 1, 1), (2 ** 64 - 2, 2, 1), (2 ** 64 - 1, 0, 0), (1, 0, 2), (0, 1, 2)])
+    mid0 = rng.randrange(65536); r = rng.choice([0, 1])
+    g = Gen(rng, token0, mid0); g.allow_refuse = False
+    def quick():
+        info = g.req(r=r, mtype=NON, obs=False)
+        g.ev(["recv", r, False, NON, 69, rng.randrange(65536), info["tok"], None, g.new_rid()])
+    for _ in range(fillers): quick()
+    victim = g.req(r=r, mtype=CON, obs=False)
+    g.ev(["recv", r, False, ACK, 0, victim["mid"], [], None, 0])
+    n = (255 * vc if vc else 255) + rng.randint(0, 45)
+    for i in range(n):
+        quick()
+        if rng.random() < 0.01: g.ev(["recv", rng.choice([0, 1, 2]), False, CON, 69, rng.randrange(65536), victim["tok"] + [0], None, g.new_rid()])   # forged: victim's token with a zero appended
+    g.ev(["recv", r, False, CON, 69, rng.randrange(65536), victim["tok"], None, g.new_rid()])      # the late genuine answer
+    g.ev(["recv", r, False, CON, 69, rng.randrange(65536), victim["tok"], None, g.new_rid()])      # ... and its duplicate (retired by then)
+    return {"token0": token0, "mid0": mid0, "t0": 2000000, "events": g.events}
+
+HUNT_EVERY = 50     # share of oracle-only collision hunts in every tier (also reached by fw's extended search after a broken obligation)
 KINDS = ["random"] * 5 + ["nomc"] * 3 + ["timeout", "shutdown", "forge", "forge", "refuse", "refuse", "refuse"]
 
 # ------------------------------------------------------------------------------------------------ the plugin
@@ -366,7 +389,8 @@ class C02(fw.Property):
             "transport errors per remote (OSError, NetworkError, subclasses); response-future cancellation; observation cancellation; shutdown at any point followed by more traffic; "
             "token counter near 2^64 and mid counter near 2^16; the transport refusing datagrams to a remote synchronously (send() calls MessageManager.dispatch_error(OSError) from inside, as udp6 does when "
             "sendmsg fails), switched on/off at any point, with NON / acknowledged CON / un-acked CON + backlog / observations outstanding to that remote, refused ACK/RST replies, refused retransmissions "
-            "and refused backlog releases. Streams: random, nomc (unicast only), timeout (all timers until silence), shutdown, forge, refuse. "
+            "and refused backlog releases. Streams: random, nomc (unicast only), timeout (all timers until silence), shutdown, forge, refuse; plus the oracle-only stream collision_hunt (1 in 50: "
+            "one request outstanding while 255-560 further requests to the same remote are issued and answered, token counter started at 0 / 1 / just below 2^64, so that a non-injective token rendering collides). "
             "Non-trivial = at least one response delivered and at least one response rejected (unmatched) in the same script; distinct by full script.")
     trusted_base = ["translator translate/py2v.py (+ the lstrip rule in translate/jobs/c02.py) and Lib/Py.v prelude, validated by the token outputs of every script",
                     "hand-written Model/C02.v, validated by the correspondence streams (complete traces, 0 disagreements required)",
@@ -379,6 +403,8 @@ class C02(fw.Property):
 
     def gen_cases(self, tier, rng, n):
         for k in range(n):
+            if k % HUNT_EVERY == HUNT_EVERY - 1:
+                yield "collision_hunt", gen_hunt(rng); continue
             kind = KINDS[k % len(KINDS)]
             yield kind, gen_script(rng, kind)
         if tier == "thorough":
@@ -397,6 +423,7 @@ class C02(fw.Property):
 
     # ---------------------------------------------------------------- model
     def model(self, stream, inp):
+        if stream == "collision_hunt": return None      # oracle-only stream (300-600 events per script; the model adds nothing to a token collision)
         def wire(mtype, code, mid, tok, obs, rid):
             return "{| w_mtype := %s; w_code := %s; w_mid := %s; w_token := %s; w_observe := %s; w_rid := %s |}" % (
                 gz(mtype), gz(code), gz(mid), gbytes(tok), gopt(obs, gz), gz(rid if code != 0 else 0))
